@@ -325,11 +325,11 @@ def canon_run_line(l):
 C15_HARNESSES = {   # name: (extra flags, argv after the binary, configurations under which the HARNESS itself does not compile)
     'C15': (['-O1'], lambda s: ['run', s, '400'], ['QUAT_CTOR_XYZW']),   # (the probe itself calls quat(w, x, y, z))        # diff/C15.cpp: cross-type conversions the tracer cannot see
     'C05': (['-O1'], lambda s: ['lines', 'quick', s], []),
-    'C06': (['-O1'], lambda s: ['lines', 'quick', s], ['CXX98', 'CXX03', 'CXX98_XYZW_CTORINIT', 'INLINE', 'SIZE_T_INLINE_EXPLICIT']),
+    'C06': (['-O1'], lambda s: ['lines', 'quick', s], ['CXX98', 'CXX03', 'CXX_UNKNOWN', 'CXX98_XYZW_CTORINIT', 'INLINE', 'SIZE_T_INLINE_EXPLICIT']),
     'C07': (['-O2'], lambda s: ['quick', s, '20000'], []),
     'C11': (['-O1'], lambda s: ['lines', s, 'quick'], []),
     'C14': (['-O1', '-fwrapv'], lambda s: ['lines', s, 'quick'], []),
-    'C18': (['-O2', '-fwrapv'], lambda s: ['plan', 'quick', s], ['CXX98', 'CXX03', 'CXX98_XYZW_CTORINIT', 'PURE', 'ARCH_UNKNOWN', 'DEFAULT_ALIGNED_PURE']),
+    'C18': (['-O2', '-fwrapv'], lambda s: ['plan', 'quick', s], ['CXX98', 'CXX03', 'CXX_UNKNOWN', 'CXX98_XYZW_CTORINIT', 'PURE', 'ARCH_UNKNOWN', 'DEFAULT_ALIGNED_PURE']),
 }
 C15_HARNESS_SKIP_REASON = ('harness source clashes with the configuration (its own typedef names vs <cstdint> in C++98 mode, function pointers to '
                            'always_inline functions, or an #error guarding the x86 code path it models)')
@@ -458,7 +458,8 @@ def run_cfg(prop, tier, seed):
     def nonsimd(uf, bins):   # C10's second unit configuration (aligned types in a SIMD build) is a semantic switch: not part of this comparison
         return [x for x in bins if not (uf == 'C10' and '_c1_' in os.path.basename(x))]
     for uf, ufconfigs in [(uf, configs) for uf in unit_files] + extra:
-        bins0, err0 = build_units(uf)
+        oc = [0] if uf == 'C10' else None    # C10's second unit configuration is a SIMD build: not compiled here at all
+        bins0, err0 = build_units(uf, only_cfgs=oc)
         if err0: unexplained.append('default build of %s failed: %s' % (uf, err0[-300:])); continue
         bins0 = nonsimd(uf, bins0)
         base = os.path.join(CACHE, 'C15_%s_default.units' % uf)
@@ -467,7 +468,7 @@ def run_cfg(prop, tier, seed):
         run0 = os.path.join(CACHE, 'C15_%s_default.run' % uf)
         run_bins(bins0, ['run', str(seed), '40'], run0)
         for cname, flags in ufconfigs:
-            binsc, errc = build_units(uf, extra_flags=flags, tag='_' + cname)
+            binsc, errc = build_units(uf, extra_flags=flags, tag='_' + cname, only_cfgs=oc)
             if errc:
                 unexplained.append('configuration %s: units of %s do not compile: %s' % (cname, uf, errc[-300:])); continue
             binsc = nonsimd(uf, binsc)
